@@ -287,6 +287,13 @@ def big_trees():
     ]
 
 
+def huge_trees():
+    """Tuples beyond 256 elements (indices above the range of CPython's shared small integers)."""
+    L = ("ZL", (("v", 0),))
+    F_ = ("ZF", ())
+    return [("ZV", (("items", tuple([L, F_] * 150)),)), ("ZU", (("c", ("ZV", (("items", tuple([L] * 259 + [("ZO", (("c", L),))])),))),))]
+
+
 def run_shard(cfg):
     rec = Rec(cfg)
     # configuration dimension: every third shard runs with runtime type checking on (all inputs are well typed,
@@ -305,6 +312,11 @@ def run_shard(cfg):
             rec.rank = 10**9 + j
             rec.count("big_trees")
             check_tree(U, d, None, rec, light=False)
+    for j, d in enumerate(huge_trees()):
+        if (j + 7) % cfg["of"] == cfg["k"]:
+            rec.rank = 2 * 10**9 + j
+            rec.count("big_trees")
+            check_tree(U, d, None, rec, light=True)
     for n in range(1, cfg["n"] + 1):
         for d in U.trees(n):
             mine = idx % cfg["of"] == cfg["k"]
